@@ -61,19 +61,74 @@ theorem free_of_fresh {w : World} (i : Inv0 w) {a : Addr} (ha : w.heap.trigs.len
   have := i.swf v a hm
   omega
 
+/-! ## normal form of the adopting operations: extend by fresh cells, stamp a free set, replace `u`'s list -/
+
+theorem mapAt_false {α : Type} (p : Nat → Bool) (f : α → α) (hp : ∀ i, p i = false) : ∀ (l : List α) (i : Nat), mapAt p f i l = l
+  | [], _ => rfl
+  | x :: xs, i => by simp [mapAt, hp, mapAt_false p f hp xs (i + 1)]
+
+theorem stampTrigs_nil (cfg : Cfg) (u : Uid) (h : Heap) : stampTrigs cfg u [] h = h := by
+  simp [stampTrigs, mapAt_false]
+
+/-- what the outcome agrees on with the state before, from the point of view of scenario `v` -/
+structure Agree (w w' : World) (v : Uid) : Prop where
+  list : w'.trigsOf v = w.trigsOf v
+  trigs : ∀ a ∈ w.trigsOf v, w'.heap.trigs[a]? = w.heap.trigs[a]?
+  comps : ∀ a ∈ w.trigsOf v, ∀ c ∈ compsOf w.heap a, w'.heap.comps[c]? = w.heap.comps[c]?
+  live : w'.live = w.live
+
+theorem Agree.refl (w : World) (v : Uid) : Agree w w v := ⟨rfl, fun _ _ => rfl, fun _ _ _ _ => rfl, rfl⟩
+
+def StampNF (cfg : Cfg) (w w' : World) (u : Uid) : Prop :=
+  ∃ (h1 : Heap) (S l' : List Addr), Ext w.heap h1 ∧ HWF h1 ∧ Sep h1 ∧ (∀ a ∈ S, a < h1.trigs.length) ∧
+    (∀ a ∈ S, ∀ v, v ≠ u → a ∉ w.trigsOf v) ∧ (∀ a ∈ l', a ∈ S ∨ a ∈ w.trigsOf u) ∧
+    w' = { w with heap := stampTrigs cfg u S h1, trigsOf := setFn w.trigsOf u l' }
+
+theorem StampNF.inv {cfg : Cfg} {w w' : World} {u : Uid} (nf : StampNF cfg w w' u) (i : Inv cfg w) (hu : u ≠ noUuid) :
+    Inv cfg w' := by
+  obtain ⟨h1, S, l', ex, w1, s1, valid, free, from_, rfl⟩ := nf
+  have i1 : Inv0 { w with heap := h1 } := i.1.ext ex w1 s1
+  exact ⟨i1.stamp cfg u hu S l' valid free from_, fun hn => ((i.2 hn).ext i.1 ex).stamp cfg hn u S l' free from_⟩
+
+theorem StampNF.agree {cfg : Cfg} {w w' : World} {u : Uid} (nf : StampNF cfg w w' u) (i : Inv0 w) {v : Uid} (hv : v ≠ u) :
+    Agree w w' v := by
+  obtain ⟨h1, S, l', ex, w1, s1, valid, free, _, rfl⟩ := nf
+  refine ⟨setFn_other _ _ _ _ hv, ?_, ?_, rfl⟩
+  · intro a ha
+    have hS : a ∉ S := fun hS => free a hS v hv ha
+    have hlt := i.swf v a ha
+    show (stampTrigs cfg u S h1).trigs[a]? = _
+    rw [stampTrigs_trig, ex.trigs_lt hlt]
+    simp [hS]
+  · intro a ha c hc
+    have hS : a ∉ S := fun hS => free a hS v hv ha
+    have hlt := i.swf v a ha
+    have ht := List.getElem?_eq_getElem hlt
+    have hcm := (mem_compsOf ht).mp hc
+    have hclt := i.hwf a _ ht c hcm
+    show (stampTrigs cfg u S h1).comps[c]? = _
+    rw [stampTrigs_comp, ex.comps_lt hclt]
+    have hm : c ∉ S.flatMap (compsOf h1) := by
+      intro hm
+      obtain ⟨b, hb, hcb⟩ := List.mem_flatMap.mp hm
+      have hbl := valid b hb
+      have hne : a ≠ b := fun e => hS (e ▸ hb)
+      have := s1 a b _ _ hne (ex.trigs a _ ht) (List.getElem?_eq_getElem hbl) c hcm
+      exact this ((mem_compsOf (List.getElem?_eq_getElem hbl)).mp hcb)
+    simp [hm]
+
 /-! ## the `triggers` setter -/
 
-theorem ctor_inv {w : World} (i : Inv0 w) (cfg : Cfg) (u : Uid) (hu : u ≠ noUuid) (seq : List Addr)
+theorem ctor_nf {w : World} (i : Inv0 w) (cfg : Cfg) (u : Uid) (seq : List Addr)
     (valid : ∀ a ∈ seq, a < w.heap.trigs.length)
     (ok : FirstForeign w.heap u seq ∨ ∀ a ∈ seq, ∀ v, v ≠ u → a ∉ w.trigsOf v)
     {h2 : Heap} {held : List Addr} (hc : ctor cfg u w.heap seq = some (h2, held)) :
-    Inv0 { w with heap := h2, trigsOf := setFn w.trigsOf u held } ∧
-      (cfg.fixNested = true → ListsOwned w → ListsOwned { w with heap := h2, trigsOf := setFn w.trigsOf u held }) := by
+    StampNF cfg w { w with heap := h2, trigsOf := setFn w.trigsOf u held } u := by
   cases seq with
   | nil =>
     simp only [ctor, Option.some.injEq, Prod.mk.injEq] at hc
     obtain ⟨rfl, rfl⟩ := hc
-    exact ⟨i.skel (Skel.refl _) u [] (by simp), fun _ lo => lo.skel (Skel.refl _) u [] (by simp)⟩
+    exact ⟨w.heap, [], [], Ext.refl _, i.hwf, i.sep, by simp, by simp, by simp, by rw [stampTrigs_nil]⟩
   | cons a0 rest =>
     have ha0 := valid a0 (by simp)
     simp only [ctor, List.getElem?_eq_getElem ha0] at hc
@@ -86,15 +141,13 @@ theorem ctor_inv {w : World} (i : Inv0 w) (cfg : Cfg) (u : Uid) (hu : u ≠ noUu
         simp only [hcp, Option.some.injEq, Prod.mk.injEq] at hc
         obtain ⟨rfl, rfl⟩ := hc
         obtain ⟨e, w1, s1, hr, hl⟩ := copyTrigs_inv _ _ _ _ _ _ _ hcp i.hwf i.sep
-        have i1 : Inv0 { w with heap := h1 } := i.ext e w1 s1
         have hfresh : ∀ a ∈ seq1, w.heap.trigs.length ≤ a ∧ a < h1.trigs.length := by
           intro a ha; rw [hr] at ha
           have := List.mem_range'_1.mp ha
           omega
         have free : ∀ a ∈ seq1, ∀ v, v ≠ u → a ∉ w.trigsOf v :=
           fun a ha v _ => free_of_fresh i (hfresh a ha).1 v
-        exact ⟨i1.stamp cfg u hu seq1 seq1 (fun a ha => (hfresh a ha).2) free (fun a ha => Or.inl ha),
-               fun hn lo => (lo.ext i e).stamp cfg hn u seq1 seq1 free (fun a ha => Or.inl ha)⟩
+        exact ⟨h1, seq1, seq1, e, w1, s1, fun a ha => (hfresh a ha).2, free, fun a ha => Or.inl ha, rfl⟩
     · have hf' : isForeign u w.heap.trigs[a0] = false := by simpa using hf
       simp only [hf', Bool.false_eq_true, if_false, Option.some.injEq, Prod.mk.injEq] at hc
       obtain ⟨rfl, rfl⟩ := hc
@@ -108,8 +161,13 @@ theorem ctor_inv {w : World} (i : Inv0 w) (cfg : Cfg) (u : Uid) (hu : u ≠ noUu
           rw [ht0, hff] at hf'
           exact Bool.noConfusion hf'
         · exact ok
-      exact ⟨i.stamp cfg u hu _ _ valid free (fun a ha => Or.inl ha),
-             fun hn lo => lo.stamp cfg hn u _ _ free (fun a ha => Or.inl ha)⟩
+      exact ⟨w.heap, _, _, Ext.refl _, i.hwf, i.sep, valid, free, fun a ha => Or.inl ha, rfl⟩
+
+/-- the same after a preliminary extension of the heap -/
+theorem StampNF.of_ext {cfg : Cfg} {w : World} {h0 : Heap} {w' : World} {u : Uid} (ex : Ext w.heap h0)
+    (nf : StampNF cfg { w with heap := h0 } w' u) : StampNF cfg w w' u := by
+  obtain ⟨h1, S, l', ex1, w1, s1, valid, free, from_, e⟩ := nf
+  exact ⟨h1, S, l', ex.trans ex1, w1, s1, valid, free, from_, e⟩
 
 /-! ## operations that only write payload -/
 
